@@ -169,7 +169,7 @@ fn plan_variant(v: &Variant, tl: &Timeline, xs: &[(u64, &'static str)]) -> Plann
 }
 
 /// the comparable part of a clientbound packet (time-based and random fields masked)
-fn stable(p: &Pkt) -> String {
+pub fn stable(p: &Pkt) -> String {
     match p {
         Pkt::CfgKeepAliveCb { .. } => "KeepAlive".into(),
         Pkt::EncryptionRequest { should_authenticate, .. } => format!("EncryptionRequest({should_authenticate})"),
@@ -178,11 +178,11 @@ fn stable(p: &Pkt) -> String {
     }
 }
 
-fn cb_view(out: &SimOutcome, with_time: bool) -> Vec<String> {
+pub fn cb_view(out: &SimOutcome, with_time: bool) -> Vec<String> {
     out.cb.iter().map(|(t, p)| if with_time { format!("{t}:{}", stable(p)) } else { stable(p) }).collect()
 }
 
-fn call_view(out: &SimOutcome, with_time: bool) -> Vec<String> {
+pub fn call_view(out: &SimOutcome, with_time: bool) -> Vec<String> {
     out.events
         .iter()
         .filter_map(|e| match e {
